@@ -259,7 +259,7 @@ def apply_reader(colls, c, op, scratch):
             import tempfile
 
             if not scratch:
-                scratch.append(tempfile.mkdtemp(prefix="c20_"))
+                scratch.append(tempfile.mkdtemp(prefix="c20_", dir=_scratch_base()))
             path = os.path.join(scratch[0], "evidence.txt")
             with open(path, "w", newline="") as f:
                 w = csv.writer(f, delimiter="\t")
@@ -277,6 +277,13 @@ def apply_reader(colls, c, op, scratch):
     except Exception as e:
         return _err(e)
     raise ValueError("unknown op %r" % (op,))
+
+
+def _scratch_base():
+    """scratch files of a history (removed when the history ends): memory-backed when the machine offers it"""
+    import os
+
+    return "/dev/shm" if os.path.isdir("/dev/shm") and os.access("/dev/shm", os.W_OK) else None
 
 
 def _mq_effective(row):
@@ -346,10 +353,11 @@ def apply_rows(colls, c, op, scratch, n):
         return [{q.peptide for q in pgr.precursorQuants} for pgr in pgrs]
 
     if not scratch:
-        scratch.append(tempfile.mkdtemp(prefix="c20_"))
-    d = os.path.join(scratch[0], "step%d" % n)
-    os.makedirs(os.path.join(d, "exp1"))
+        scratch.append(tempfile.mkdtemp(prefix="c20_", dir=_scratch_base()))
+    d = scratch[0]  # the files of a step overwrite those of the step before (directory operations are the slow part)
     psm = os.path.join(d, "exp1", "psm.tsv")
+    if k in ("psm_update", "fp_quant") and not os.path.isdir(os.path.join(d, "exp1")):
+        os.mkdir(os.path.join(d, "exp1"))
     try:
         if k in ("psm_update", "fp_quant"):
             _write_tsv(psm, PSM_HEADER, [["s%d" % t, _pep(t), "", "2", "0.999", "", "", r[0], "", "", "", "", "", ", ".join(r[1:])]
@@ -448,86 +456,130 @@ _PKG_MODULES = [
     "picked_group_fdr.parsers.fragpipe", "picked_group_fdr.parsers.sage", "picked_group_fdr.parsers.maxquant",
     "picked_group_fdr.parsers.psm", "picked_group_fdr.pipeline.update_fragpipe_results",
 ]
-_CONTAINER_TYPES = None
-_PRISTINE = {}  # (id(owner), name, slot) -> (container object, copy of its pristine contents)
+_PRISTINE = {}  # (id(owner), name, slot) -> (object, copy of its pristine contents) / ("none",) for a name bound to None
+_SCANNED = {}   # module name -> (signature, entries): the scan of a module is repeated only when names were added
 
 
-def _package_containers():
-    """every module-level, class-level and function-level (mutable default / function attribute) container of the
-    loaded package modules, and every memoising wrapper (`functools.lru_cache`)"""
+def _container_types():
+    import collections
+
+    return (dict, list, set, collections.OrderedDict, collections.defaultdict, collections.deque, collections.Counter)
+
+
+def _scan_module(mname, mod):
+    """every module-level, class-level and function-level (mutable default / function attribute) container of a package
+    module, every memoising wrapper (`functools.lru_cache`) and every module- or class-level name bound to None (a
+    lazily created cache); returns (classes, functions, entries)"""
     import inspect
-    import sys
     import types
 
-    for mname, mod in list(sys.modules.items()):
-        if mod is None or not (mname == "picked_group_fdr" or mname.startswith("picked_group_fdr.")):
-            continue
-        owners = [mod] + [v for v in list(vars(mod).values()) if inspect.isclass(v) and getattr(v, "__module__", None) == mname]
-        for owner in owners:
-            for name, val in list(vars(owner).items()):
-                if name.startswith("__") and name.endswith("__"):
-                    continue
-                yield owner, name, "", val
-                fn = val.__func__ if isinstance(val, (staticmethod, classmethod)) else val
-                if isinstance(fn, types.FunctionType) and getattr(fn, "__module__", None) == mname:
-                    for i, dv in enumerate(fn.__defaults__ or ()):
-                        yield fn, name, "default%d" % i, dv
-                    for kn, dv in (fn.__kwdefaults__ or {}).items():
-                        yield fn, name, "kwdefault:" + kn, dv
-                    for an, av in list(vars(fn).items()):
-                        yield fn, name, "attr:" + an, av
+    ctypes = _container_types()
+    classes = [v for v in list(vars(mod).values()) if inspect.isclass(v) and getattr(v, "__module__", None) == mname]
+    functions, entries = [], []
+
+    def consider(owner, name, slot, val):
+        if callable(getattr(val, "cache_clear", None)) or type(val) in ctypes or (val is None and slot == ""):
+            entries.append((owner, name, slot))
+
+    for owner in [mod] + classes:
+        for name, val in list(vars(owner).items()):
+            if name.startswith("__") and name.endswith("__"):
+                continue
+            consider(owner, name, "", val)
+            fn = val.__func__ if isinstance(val, (staticmethod, classmethod)) else val
+            if isinstance(fn, types.FunctionType) and getattr(fn, "__module__", None) == mname:
+                functions.append(fn)
+                for i, dv in enumerate(fn.__defaults__ or ()):
+                    consider(fn, name, "default%d" % i, dv)
+                for kn, dv in (fn.__kwdefaults__ or {}).items():
+                    consider(fn, name, "kwdefault:" + kn, dv)
+                for an, av in list(vars(fn).items()):
+                    consider(fn, name, "attr:" + an, av)
+    return classes, functions, entries
+
+
+def _slot_value(owner, name, slot):
+    if slot == "":
+        return vars(owner).get(name)
+    if slot.startswith("default"):
+        d = owner.__defaults__ or ()
+        i = int(slot[7:])
+        return d[i] if i < len(d) else None
+    if slot.startswith("kwdefault:"):
+        return (owner.__kwdefaults__ or {}).get(slot[10:])
+    return vars(owner).get(slot[5:])
 
 
 def fresh_process():
     """A history stands for ONE process lifetime: state the package keeps outside the objects of the history (module-level
-    or class-level containers, mutable default arguments, function attributes, lru_cache wrappers) must not leak from one
-    case into the next, or a failing history would not replay on its own.  All modules the harness calls are imported
-    first; the contents of every such container are recorded when it is first seen and put back (in place) at the start
-    of every later case."""
-    global _CONTAINER_TYPES
+    or class-level containers, names bound to None that are filled lazily, mutable default arguments, function attributes,
+    lru_cache wrappers) must not leak from one case into the next, or a failing history would not replay on its own.  All
+    modules the harness calls are imported first; the contents of every such container are recorded when it is first seen
+    and put back (in place) at the start of every later case."""
     import collections
     import copy
     import importlib
+    import sys
 
     for m in _PKG_MODULES:
-        importlib.import_module(m)
-    if _CONTAINER_TYPES is None:
-        _CONTAINER_TYPES = (dict, list, set, collections.OrderedDict, collections.defaultdict, collections.deque, collections.Counter)
-    for owner, name, slot, val in _package_containers():
-        if callable(getattr(val, "cache_clear", None)):
-            val.cache_clear()
+        if m not in sys.modules:
+            importlib.import_module(m)
+    ctypes = _container_types()
+    for mname, mod in list(sys.modules.items()):
+        if mod is None or not (mname == "picked_group_fdr" or mname.startswith("picked_group_fdr.")):
             continue
-        if type(val) not in _CONTAINER_TYPES:
-            continue
-        key = (id(owner), name, slot)
-        known = _PRISTINE.get(key)
-        if known is None or known[0] is not val:
-            if known is not None and slot == "":
-                # the name was rebound to another container: bind it to the recorded object again
-                setattr(owner, name, known[0])
-                val = known[0]
-            else:
-                try:
-                    snap = copy.deepcopy(val)
-                except Exception:
-                    snap = copy.copy(val)
-                _PRISTINE[key] = (val, snap)
+        known = _SCANNED.get(mname)
+        if known is not None:
+            (nmod, cls_sizes, fn_sizes), (classes, functions, entries) = known
+            if nmod != len(vars(mod)) or any(len(vars(c)) != k for c, k in zip(classes, cls_sizes)) or any(
+                    len(vars(f)) != k for f, k in zip(functions, fn_sizes)):
+                known = None
+        if known is None:
+            classes, functions, entries = _scan_module(mname, mod)
+            _SCANNED[mname] = ((len(vars(mod)), [len(vars(c)) for c in classes], [len(vars(f)) for f in functions]),
+                               (classes, functions, entries))
+        for owner, name, slot in entries:
+            val = _slot_value(owner, name, slot)
+            key = (id(owner), name, slot)
+            rec = _PRISTINE.get(key)
+            if rec is None:  # first sight: this is the pristine state
+                if val is None:
+                    _PRISTINE[key] = ("none",)
+                elif callable(getattr(val, "cache_clear", None)):
+                    _PRISTINE[key] = ("cache",)
+                    val.cache_clear()
+                else:
+                    try:
+                        snap = copy.deepcopy(val)
+                    except Exception:
+                        snap = copy.copy(val)
+                    _PRISTINE[key] = (val, snap)
                 continue
-        obj, snap = _PRISTINE[key]
-        if obj == snap:
-            continue
-        try:
-            content = copy.deepcopy(snap)
-        except Exception:
-            content = copy.copy(snap)
-        if isinstance(obj, (dict, set)):
-            obj.clear()
-            obj.update(content)
-        elif isinstance(obj, collections.deque):
-            obj.clear()
-            obj.extend(content)
-        else:
-            obj[:] = content
+            if rec[0] == "none":
+                if val is not None:
+                    setattr(owner, name, None)
+                continue
+            if rec[0] == "cache":
+                if callable(getattr(val, "cache_clear", None)):
+                    val.cache_clear()
+                continue
+            obj, snap = rec
+            if val is not obj and slot == "":
+                setattr(owner, name, obj)  # the name was rebound to another container: bind the recorded object again
+            if obj == snap:
+                continue
+            try:
+                content = copy.deepcopy(snap)
+            except Exception:
+                content = copy.copy(snap)
+            if isinstance(obj, (dict, set)):
+                obj.clear()
+                obj.update(content)
+            elif isinstance(obj, collections.deque):
+                obj.clear()
+                obj.extend(content)
+            else:
+                obj[:] = content
 
 
 def apply_op(pg, op):
@@ -657,7 +709,7 @@ class P(Prop):
                 out.append(rng.choice(INSIDE))
         return out
 
-    def _gen_op(self, rng, present, ncoll=1, c=0, can_update_last=False, row_pool=None):
+    def _gen_op(self, rng, present, ncoll=1, c=0, can_update_last=False, row_pool=None, fav=None):
         r = rng.random()
         fresh = [p for p in INSIDE if p not in present]
         if r < 0.40:  # mutators
@@ -707,6 +759,8 @@ class P(Prop):
         if r < 0.64 and r >= 0.50:  # the package's lookup callers: rows from the history's pool (+ now and then a new row)
             k = rng.choice(["psm_update", "psm_update", "psm_update", "fp_quant", "fp_ion", "sage_quant", "sage_lfq",
                             "mq_quant", "collect_rows", "annot"])
+            if fav is not None and rng.random() < 0.6:
+                k = fav  # a history calls ONE of the functions again and again (a tool looping over the files of a run)
             pool = row_pool or [[p] for p in INSIDE[:3]]
             rows = [list(rng.choice(pool)) for _ in range(rng.choice([0, 1, 2, 3, 3, 4, 6]))]
             if rows and rng.random() < 0.2:
@@ -767,10 +821,11 @@ class P(Prop):
             if rng.random() < 0.1:
                 row[0] = "OBSOLETE__" + row[0]
             row_pool.append(row)
+        fav = rng.choice(sorted(ROWCALLERS))
         have_obs = False  # the grouping object remembers obsolete groups of the last merge_with_rescued_protein_groups
         for _ in range(n):
             c = rng.randrange(ncoll)
-            op = self._gen_op(rng, sorted(present[c]), ncoll, c, have_obs, row_pool)
+            op = self._gen_op(rng, sorted(present[c]), ncoll, c, have_obs, row_pool, fav)
             ops.append([c] + op)
             k = op[0]
             if k in ("append", "extend", "merge", "rescue_update", "rescue_update_last") and rng.random() < reindex:
